@@ -5,7 +5,7 @@ PROPERTY = 'C10'
 LEAN_PROPS = 'PlumpyModel.Props.C10'
 ASSUMPTIONS = pm_prop.ASSUMPTIONS
 TRUSTED = pm_prop.TRUSTED
-ALPHABET = ['complete', 'completeexc', 'pause', 'play']
+ALPHABET = ['complete', 'completeexc', 'completekilled', 'pause', 'play']
 MONITORS = ['c10', 'looperr']
 
 
